@@ -740,6 +740,7 @@ func (db *PGDB) exec(stmt *pg_query.Node, portal *pgPortal) (*resultSet, error) 
 		}
 		c.tables = []*boundTable{bt}
 		n := 0
+		var touched [][][]byte
 		for ri, row := range bt.t.Rows {
 			bt.row = row
 			ok, err := c.cond(up.WhereClause)
@@ -771,9 +772,26 @@ func (db *PGDB) exec(stmt *pg_query.Node, portal *pgPortal) (*resultSet, error) 
 				}
 			}
 			bt.t.Rows[ri] = nr
+			touched = append(touched, nr)
 			n++
 		}
-		return &resultSet{tag: fmt.Sprintf("UPDATE %d", n)}, nil
+		rs := &resultSet{tag: fmt.Sprintf("UPDATE %d", n)}
+		if len(up.ReturningList) > 0 {
+			cols, rowFn, err := db.targets(c, up.ReturningList)
+			if err != nil {
+				return nil, err
+			}
+			rs.cols = cols
+			for _, r := range touched {
+				bt.row = r
+				out, err := rowFn()
+				if err != nil {
+					return nil, err
+				}
+				rs.rows = append(rs.rows, out)
+			}
+		}
+		return rs, nil
 
 	case stmt.GetDeleteStmt() != nil:
 		del := stmt.GetDeleteStmt()
@@ -782,7 +800,7 @@ func (db *PGDB) exec(stmt *pg_query.Node, portal *pgPortal) (*resultSet, error) 
 			return nil, err
 		}
 		c.tables = []*boundTable{bt}
-		var keep [][][]byte
+		var keep, gone [][][]byte
 		n := 0
 		for _, row := range bt.t.Rows {
 			bt.row = row
@@ -792,12 +810,29 @@ func (db *PGDB) exec(stmt *pg_query.Node, portal *pgPortal) (*resultSet, error) 
 			}
 			if ok == bTrue {
 				n++
+				gone = append(gone, row)
 			} else {
 				keep = append(keep, row)
 			}
 		}
 		bt.t.Rows = keep
-		return &resultSet{tag: fmt.Sprintf("DELETE %d", n)}, nil
+		rs := &resultSet{tag: fmt.Sprintf("DELETE %d", n)}
+		if len(del.ReturningList) > 0 {
+			cols, rowFn, err := db.targets(c, del.ReturningList)
+			if err != nil {
+				return nil, err
+			}
+			rs.cols = cols
+			for _, r := range gone {
+				bt.row = r
+				out, err := rowFn()
+				if err != nil {
+					return nil, err
+				}
+				rs.rows = append(rs.rows, out)
+			}
+		}
+		return rs, nil
 
 	case stmt.GetSelectStmt() != nil:
 		sel := stmt.GetSelectStmt()
@@ -922,6 +957,22 @@ func (db *PGDB) describe(stmt *pg_query.Node) ([]PGColumn, error) {
 			}
 		}
 		cols, _, err := db.targets(c, sel.TargetList)
+		return cols, err
+	case stmt.GetUpdateStmt() != nil && len(stmt.GetUpdateStmt().ReturningList) > 0:
+		bt, err := db.table(stmt.GetUpdateStmt().Relation)
+		if err != nil {
+			return nil, err
+		}
+		c.tables = []*boundTable{bt}
+		cols, _, err := db.targets(c, stmt.GetUpdateStmt().ReturningList)
+		return cols, err
+	case stmt.GetDeleteStmt() != nil && len(stmt.GetDeleteStmt().ReturningList) > 0:
+		bt, err := db.table(stmt.GetDeleteStmt().Relation)
+		if err != nil {
+			return nil, err
+		}
+		c.tables = []*boundTable{bt}
+		cols, _, err := db.targets(c, stmt.GetDeleteStmt().ReturningList)
 		return cols, err
 	case stmt.GetInsertStmt() != nil && len(stmt.GetInsertStmt().ReturningList) > 0:
 		bt, err := db.table(stmt.GetInsertStmt().Relation)
